@@ -55,7 +55,8 @@ def run_live(ctx, plan):
                 out = os.path.join(d, 'trace.ndjson')
                 with open(cj, 'w') as f:
                     json.dump({'Power': cfg.power, 'Byz': cfg.byz, 'MaxRound': cfg.max_round, 'Heights': heights,
-                               'Seed': seed, 'LimitMs': 60000}, f)
+                               'Seed': seed, 'LimitMs': 60000, 'ByzActive': bool(getattr(cfg, 'byz_active', False)),
+                               'Scale': getattr(cfg, 'scale', 0)}, f)
                 p = subprocess.run([os.path.join(engine.HARNESS, engine.BIN, 'csim'), 'live', cj, out],
                                    stdout=subprocess.PIPE, stderr=subprocess.PIPE, text=True, errors='replace',
                                    timeout=300, env=engine.GOENV)
@@ -72,6 +73,15 @@ def run_live(ctx, plan):
                                             % (cfg.name, seed, res['error']))
                     continue
                 lines = open(out).read().splitlines()
+                # the model explores rounds 0..MaxRound only: validate the prefix that stays inside
+                for i, ln in enumerate(lines):
+                    rec = json.loads(ln)
+                    if rec['post']['r'] >= cfg.max_round or rec.get('m', {}).get('r', 0) >= cfg.max_round:
+                        lines = lines[:i]
+                        ctx.cov['live_traces_cut_at_round_bound'] = ctx.cov.get('live_traces_cut_at_round_bound', 0) + 1
+                        break
+                with open(out, 'w') as f:
+                    f.write('\n'.join(lines) + ('\n' if lines else ''))
                 events += len(lines)
                 r = tm.validate_trace(ctx, cfg, out)
                 ctx.cov['tlc_runs'].append(dict(r.summary(), name='Trace/%s/%d' % (cfg.name, seed), exhaustive=False))
